@@ -114,7 +114,21 @@ def check_crate(fx, rep, crate, cfg):
                     step_ok = False
                     amount = None
                     sz = crate.consts.get('connection::BUFFER_SIZE', {}).get('val')
-                    for aop in t['args'][1:]:
+                    amount_args = t['args'][1:]
+                    if t['callee'].get('name') == 'resize' and len(t['args']) >= 2:
+                        # resize(new_len, fill): the amount is new_len - len; accept exactly len(buffer) + step
+                        e = SY.expr(crate, body, t['args'][1])
+                        amount = SY.show(e, 160)
+                        amount_args = []
+
+                        def is_len_of_buf(x):
+                            return (x[0] == 'len' and x[1][0] == 'field' and x[1][1][-1] == bf) or (x[0] == 'call' and x[1] == 'len' and bf in SY.show(x, 200))
+                        if e[0] == 'bin' and e[1] == 'Add':
+                            a_, b_ = e[2], e[3]
+                            stepx = lambda x: x[0] == 'cdef' and 'BUFFER_SIZE' in x[1] and 'MAX' not in x[1]
+                            if (is_len_of_buf(a_) and stepx(b_)) or (is_len_of_buf(b_) and stepx(a_)):
+                                step_ok = True
+                    for aop in amount_args:
                         e = SY.expr(crate, body, aop)
                         amount = SY.show(e, 160)
 
